@@ -213,6 +213,18 @@ func TestC16Sequences(t *testing.T) {
 	rec(nil)
 	run.Count("exhaustive_sequences", int64(idx))
 	run.Exhaustive(true)
+	// very long version chains: the back edge must still be rejected, the forward shortcut accepted
+	if run.Shard == 0 {
+		for _, n := range []int{8, 70, 300} {
+			var seq []op
+			for k := 0; k < n; k++ {
+				seq = append(seq, op{K: "reg", From: fmt.Sprintf("doc.v%d", k), To: fmt.Sprintf("doc.v%d", k+1)})
+			}
+			seq = append(seq, op{K: "reg", From: fmt.Sprintf("doc.v%d", n), To: "doc.v0"}, op{K: "reg", From: fmt.Sprintf("doc.v%d", n), To: "doc.v1"},
+				op{K: "reg", From: "doc.v0", To: fmt.Sprintf("doc.v%d", n)}, op{K: "reg", From: fmt.Sprintf("doc.v%d", n/2), To: "doc.v0"})
+			runSeq(run, seq, fmt.Sprintf("chain%d", n))
+		}
+	}
 	// PRNG sequences of length <= 12 over 5 names (valid registrations favoured so that graphs grow)
 	n := run.Scale(8000, 120000)
 	names5 := []string{"A", "B", "C", "D", "E"}
@@ -535,6 +547,30 @@ func TestC16Termination(t *testing.T) {
 				run.Sample(map[string]any{"edges": es, "returned_types": assign, "max_calls_per_event": perEventMax})
 			}
 		}
+	}
+	// a one-shot upcast error handler that uninstalls itself from inside the callback
+	if run.Shard == 0 {
+		cur = "self-uninstalling upcast error handler"
+		dog.Case(cur)
+		store := ebu.NewMemoryStore()
+		bus := ebu.New(ebu.WithStore(store))
+		calls := 0
+		bus.SetUpcastErrorHandler(func(string, json.RawMessage, error) {
+			calls++
+			bus.SetUpcastErrorHandler(nil)
+		})
+		ebu.RegisterUpcastFunc(bus, "A", "B", func(json.RawMessage) (json.RawMessage, string, error) {
+			return nil, "", errors.New("verif: upcast fails")
+		})
+		store.Append(context.Background(), &ebu.Event{Type: "A", Data: json.RawMessage(`{}`)})
+		store.Append(context.Background(), &ebu.Event{Type: "A", Data: json.RawMessage(`{}`)})
+		n := 0
+		err := bus.ReplayWithUpcast(context.Background(), ebu.OffsetOldest, func(*ebu.StoredEvent) error { n++; return nil })
+		dog.Tick()
+		if err != nil || n != 2 || calls != 1 {
+			run.Violation("upcast-apply:error-handler-reentry", fmt.Sprintf("an upcast error handler that calls SetUpcastErrorHandler(nil) from inside the callback: replay err=%v, %d of 2 events, handler calls %d", err, n, calls), nil)
+		}
+		run.Case(cur, true)
 	}
 	run.Count("graph_assignment_pairs", int64(idx))
 	run.Exhaustive(nNames == 3)
